@@ -74,7 +74,7 @@ def check_linear(ctx, case, key, factory, exp):
     pr, pd = M.shape
     m = factory()
     # ---- forward -------------------------------------------------------------------------------------------------
-    ctx.case("forward/" + key, facet="forward")
+    ctx.case("forward/" + key + exp["ckey"], facet="forward")
     fx, err = _try(lambda: m.forward(x))
     if err is not None or not close(fx, exp["fwd_x"]):
         ctx.mismatch("forward/%s" % key, case, "forward(x) is not H+ F G x of the specification", exp["fwd_x"],
@@ -94,7 +94,7 @@ def check_linear(ctx, case, key, factory, exp):
         ctx.mismatch("forward/%s" % key, case, "forward on the basis vectors is not the matrix H+ F G of the specification", M, Fw)
         return
     # ---- adjoint: <Fwd x, y> = <x, Adj y>, on y and on every basis vector -----------------------------------------
-    ctx.case("adjoint/" + key, facet="adjoint")
+    ctx.case("adjoint/" + key + exp["ckey"], facet="adjoint")
     ay, err = _try(lambda: m.adjoint(y))
     adj_refused = err is not None
     Ad, adj_cls = None, None
@@ -119,7 +119,7 @@ def check_linear(ctx, case, key, factory, exp):
                              + (" (it is the composition fun2par . F* . par2fun)" if coded else ""),
                              {"adj_y": exp["adj_y"], "<Fwd x,y>": float(fx @ y)}, {"adj_y": ay, "<x,Adj y>": float(x @ ay)})
     # ---- matrix representation ---------------------------------------------------------------------------------
-    ctx.case("get_matrix/" + key, facet="get_matrix")
+    ctx.case("get_matrix/" + key + exp["ckey"], facet="get_matrix")
     m2 = factory()
     G, err = _try(lambda: _dense(m2.get_matrix()))
     if err is not None or not close(G, M):
@@ -132,7 +132,7 @@ def check_linear(ctx, case, key, factory, exp):
         ctx.mismatch("forward_after_get_matrix/%s" % key, case, "forward(x) changed after get_matrix()", exp["fwd_x"],
                      f2 if err is None else repr(err))
     # ---- transposed model -----------------------------------------------------------------------------------------
-    ctx.case("T/" + key, facet="T")
+    ctx.case("T/" + key + exp["ckey"], facet="T")
     # (function-backed models cache the assembled matrix: their T is also taken after get_matrix())
     for tag, mk_model in ((("", factory), ("_after_get_matrix", lambda: m2)) if not exp["matrix_backed"] else (("", factory),)):
         m3 = mk_model()
@@ -221,6 +221,7 @@ def check_lin_case(ctx, case):
         rng = build_geometry(case["rg"], Hr, Hpr, variant=vr)
         key = "mk=%s/dom=%s/rng=%s" % (case["mk"], gkey(dom.g), gkey(rng.g))
         exp = _lin_expectations(case, dom, rng)
+        exp["ckey"] = "/f%d/n%d" % (case["fi"], case["dg"]["n"])      # (accounting only: operator variant, orientation)
         check_linear(ctx, case, key, lambda: build_linear_model(case["mk"], exp["F"], dom, rng), exp)
 
 
